@@ -334,6 +334,21 @@ def run(ck):
                 if not close(zm, z, 1e-12, 1e-300):
                     why = '%s on pulse %d: impl %r model %r' % (type(ld).__name__, p.idx + 1, z, zm)
                     break
+        # which per-object distributed loads list each pulse (owner's load + fix_distributed_loads) vs distLoadsOf
+        for cls, attr in ((Skin_Effect_Load, 'skin_load'), (Insulation_Load, 'coat_load')):
+            if why:
+                break
+            flags = ''.join('1' if getattr(g, attr) else '0' for g in m.geo)
+            if '1' not in flags:
+                continue
+            for p in m.pulses:
+                got = sorted(l.geobj.n for l in m.loads if isinstance(l, cls) for q in l.pulses if q is p)
+                ans = d.ask('ckt distloads', p.geobj.n, p.segs[0].geobj.n, p.segs[1].geobj.n, flags)
+                want = sorted(int(x) for x in ans.split())
+                ck.count('dist_listing_ties')
+                if got != want:
+                    why = '%s: pulse %d is listed by the loads of objects %r, model %r' % (cls.__name__, p.idx + 1, got, want)
+                    break
         if why:
             dis.append(dict(kind='loaded', gen_seed=gs, why=why, small=(ck.tier == 'quick')))
     # feed-shift evaluator on a small vetted corpus
